@@ -5,7 +5,7 @@
    witnesses of the three repaired findings stay as regression Examples on the pre-fix functions
    (op_import_names_unsorted, frag_module_order_unsorted, gen_client_imports_mutating). *)
 From Coq Require Import List String Ascii Bool Arith Permutation.
-From AC Require Import Base.Strs Base.SortUniq Model.Nondet Proofs.NondetP Proofs.NondetDfs.
+From AC Require Import Base.Strs Base.SortUniq Model.Nondet Proofs.NondetP Proofs.NondetDfs Proofs.NondetFuel.
 Import ListNotations.
 Local Open Scope string_scope.
 
@@ -49,6 +49,18 @@ Theorem C10_fragments_module_complete : forall o fi p ord,
 Proof. exact frag_module_complete. Qed.
 Print Assumptions C10_fragments_module_complete.
 
+(* the fuel never decides: on well-formed inputs (fragment names distinct, every mixin a defined fragment — what
+   graphql-core's validation guarantees and the tie re-checks on every recorded input) the worklist and the DFS
+   finish within frag_fuel, so the module order exists, has no class twice and holds every requested fragment *)
+Theorem C10_fragments_module_total : forall o fi, wf_finput fi ->
+  exists p ord, frag_module_order o fi = Some (p, ord) /\ NoDup ord /\
+                (forall x, In x (set_diff (fi_defs fi) (fi_excl fi)) -> In x ord).
+Proof.
+  intros o fi W. destruct (frag_module_order_total o fi W) as [p [ord E]].
+  exists p, ord. split; [exact E|]. exact (frag_module_complete o fi p ord E).
+Qed.
+Print Assumptions C10_fragments_module_total.
+
 Theorem C10_generation_order_independent : forall o1 o2 fi fuel queue names processed,
   work fuel o1 fi queue names processed = work fuel o2 fi queue names processed.
 Proof. exact generation_order_independent. Qed.
@@ -86,11 +98,12 @@ Theorem C10_raw_and_isort_sinks_are_order_sensitive : forall k, order_sensitive 
 Proof. exact observe_refuted. Qed.
 Print Assumptions C10_raw_and_isort_sinks_are_order_sensitive.
 
-(* the graphqlschema strategy: its generator package has one set (a membership constant) and one constant dict *)
+(* the graphqlschema strategy: its generator package has one set (a membership constant), one constant dict
+   and two writes of the target file *)
 Example C10_schema_strategy_sites :
   map (fun s => (s_ctx s, sink_name (s_sink s)))
       (filter (fun s => String.prefix "graphql_schema_generators/" (s_file s)) site_table)
-    = [("construct", "none"); ("state:module", "constant")].
+    = [("construct", "none"); ("state:module", "constant"); ("fs", "write-target"); ("fs", "write-target")].
 Proof. vm_compute. reflexivity. Qed.
 
 (* ---- isort's section placement: the ENVIRONMENT oracle (what exists below cwd) ---- *)
@@ -160,6 +173,41 @@ Print Assumptions C10_regenerate_independent_of_previous.
 Theorem C10_regenerate_keeps_other_files : forall p fs m,
   ~ In m (map fst p) -> fs_lookup m (write_all p fs) = fs_lookup m fs.
 Proof. exact regenerate_keeps_other_files. Qed.
+
+(* ---- the target directory as the generator meets it: `if not package_path.exists(): mkdir()` then writes ---- *)
+Theorem C10_generate_absent_eq_empty : forall p, generate_into true p TAbsent = generate_into true p (TDir []).
+Proof. exact generate_absent_eq_empty. Qed.
+
+Theorem C10_generate_twice : forall b1 b2 p t t1, NoDup (map fst p) ->
+  generate_into b1 p t = GenOk t1 -> generate_into b2 p t1 = GenOk t1.
+Proof. exact generate_twice. Qed.
+Print Assumptions C10_generate_twice.
+
+Theorem C10_generate_files_independent_of_target : forall b1 b2 p t1 t2 fs1 fs2 m,
+  generate_into b1 p t1 = GenOk (TDir fs1) -> generate_into b2 p t2 = GenOk (TDir fs2) ->
+  In m (map fst p) -> fs_lookup m fs1 = fs_lookup m fs2.
+Proof. exact generate_files_independent_of_target. Qed.
+Print Assumptions C10_generate_files_independent_of_target.
+
+Theorem C10_generate_fails_iff : forall b p t e, p <> [] ->
+  generate_into b p t = GenErr e <-> (t = TAbsent /\ b = false /\ e = "FileNotFoundError") \/
+                                      (t = TFile /\ e = "NotADirectoryError").
+Proof. exact generate_fails_iff. Qed.
+
+(* over the site table (every file-system access of the generator and its plugins is a row): no row reads what a
+   previous generation left; exactly one row tests the target's existence *)
+Theorem C10_emission_target_independent : forall s, In s site_table ->
+  forall fs1 fs2, observe_target (s_sink s) (TDir fs1) = observe_target (s_sink s) (TDir fs2).
+Proof. exact emission_target_independent. Qed.
+Print Assumptions C10_emission_target_independent.
+
+Example C10_target_sites : target_sensitive_sites = [] /\
+  target_exists_sites = [("client_generators/package.py", "PackageGenerator.generate", "self.package_path.exists(...)")].
+Proof. vm_compute. split; reflexivity. Qed.
+
+Theorem C10_read_target_is_target_sensitive : forall k, target_sensitive k = true ->
+  exists fs1 fs2, observe_target k (TDir fs1) <> observe_target k (TDir fs2).
+Proof. exact read_target_is_target_sensitive. Qed.
 
 (* ---- several generations in one interpreter: any history, plugin or not ---- *)
 Theorem C10_history_independent : forall hist plugin wanted st,
